@@ -49,6 +49,9 @@ def build(tier, seed):
         q = rc.rq("iter_bigindex_v%d" % ver, "h_drain", dict(big, ver=ver), kind=0, witness=False, timeout=1500)
         q.flags = ["--max-field-sensitivity-array-size", "2048"]
         qs.append(q)
+    if quick:
+        for ver in (1, 2):
+            qs.append(rc.rq("iter_e22_v%d_p130" % ver, "h_drain", dict(base[0][1], ver=ver, pfx=130), kind=0, witness=False))
     # all restart-flag subsets of a 3-entry block (first always set), with maximal sharing where not a restart
     for bits in itertools.product((0, 1), repeat=2):
         rsts = [1] + list(bits)
